@@ -49,6 +49,7 @@ type gwListener struct {
 	Kinds    []string // allowed kinds; empty = all
 	From     string   // Same | All | Selector
 	Selector map[string]string
+	Exprs    []metav1.LabelSelectorRequirement
 }
 
 func mkGateway(ns, name, class string, created int, ls []gwListener) *gatewayv1.Gateway {
@@ -57,7 +58,7 @@ func mkGateway(ns, name, class string, created int, ls []gwListener) *gatewayv1.
 		from := gatewayv1.FromNamespaces(l.From)
 		ar := &gatewayv1.AllowedRoutes{Namespaces: &gatewayv1.RouteNamespaces{From: &from}}
 		if l.From == "Selector" {
-			ar.Namespaces.Selector = &metav1.LabelSelector{MatchLabels: l.Selector}
+			ar.Namespaces.Selector = &metav1.LabelSelector{MatchLabels: l.Selector, MatchExpressions: l.Exprs}
 		}
 		for _, k := range l.Kinds {
 			ar.Kinds = append(ar.Kinds, gatewayv1.RouteGroupKind{Kind: gatewayv1.Kind(k)})
@@ -217,6 +218,22 @@ func (g *gwGen) listeners() []gwListener {
 			l.Selector = map[string]string{"team": g.of("red", "blue")}
 			if g.chance(1, 5) {
 				l.Selector = map[string]string{"team": "red", "env": "prod"}
+			}
+			if g.chance(1, 2) {
+				// matchExpressions, alone or on top of matchLabels
+				if g.chance(1, 2) {
+					l.Selector = nil
+				}
+				switch g.pick(4) {
+				case 0:
+					l.Exprs = []metav1.LabelSelectorRequirement{{Key: "team", Operator: metav1.LabelSelectorOpIn, Values: []string{g.of("red", "blue")}}}
+				case 1:
+					l.Exprs = []metav1.LabelSelectorRequirement{{Key: "env", Operator: metav1.LabelSelectorOpNotIn, Values: []string{"prod"}}}
+				case 2:
+					l.Exprs = []metav1.LabelSelectorRequirement{{Key: "env", Operator: metav1.LabelSelectorOpExists}}
+				case 3:
+					l.Exprs = []metav1.LabelSelectorRequirement{{Key: "env", Operator: metav1.LabelSelectorOpDoesNotExist}, {Key: "team", Operator: metav1.LabelSelectorOpIn, Values: []string{"red", "blue"}}}
+				}
 			}
 		}
 		out = append(out, l)
